@@ -51,7 +51,7 @@ def run_job(job):
                         ni += 1
                         vid = (oi + 1) * 1000 + int(k) + 1
                         sym2id[nm] = vid
-                        val = rng.choice([1, 2, -2, 3, -3, Fraction(1, 2), Fraction(-2, 3), 5])
+                        val = rng.choice([1, 2, -2, 3, -3, Fraction(1, 2), Fraction(-2, 3), -1])
                         sigma[nm] = val
                         vs.append(sympy.Symbol(nm))
                         vn.append(val)
